@@ -6,7 +6,7 @@
            1 consumed len body..     Frame
            2                         Bad
            3                         Crash
-     2 k n1 c1.. n2 c2.. ..         run_chunks (every body counts as a valid message) of the k chunks
+     2 k n1 c1.. n2 c2.. ..         run_chunks (every body except `null` counts as a message) of the k chunks
         -> count events..            0 len body.. EMsg | 1 EErr | 2 len body.. EBadJson | 3 ECrash | 4 ETrailing
      3 b1 .. bn                     encode_frame of the n bytes (the serialised message)
         -> 0 e1 .. em                the frame *)
@@ -42,7 +42,13 @@ Fixpoint take_chunks (k : nat) (l : list N) : list (list N) :=
       end
   end.
 
-Definition all_json_ok (_ : list N) : bool := true.
+(* Body classification used by the judge: the generators put only bodies that deserialise to a
+   Message into command-2 streams, except for the JSON text `null` (optionally surrounded by JSON
+   whitespace), the regression witness corpus/C19/null_body.json, which is not a message. *)
+Definition is_json_ws (b : N) : bool := (b =? 32) || (b =? 9) || (b =? 10) || (b =? 13).
+Definition is_null_body (body : list N) : bool :=
+  bytes_eqb (rev (drop_while is_json_ws (rev (drop_while is_json_ws body)))) [110; 117; 108; 108].
+Definition judge_json_ok (body : list N) : bool := negb (is_null_body body).
 
 Definition run_codec (cmd : list N) : list N :=
   match cmd with
@@ -51,7 +57,7 @@ Definition run_codec (cmd : list N) : list N :=
       else if c =? 2 then
         match args with
         | k :: rest =>
-            let evs := run_chunks all_json_ok (take_chunks (N.to_nat k) rest) in
+            let evs := run_chunks judge_json_ok (take_chunks (N.to_nat k) rest) in
             N.of_nat (length evs) :: flat_map enc_event evs
         | [] => [98]
         end
